@@ -61,6 +61,9 @@ run() { # name kind patchfile-or-empty [file sed-expression]
   fi
   (cd "$MUT" && gofmt -l -e . >/dev/null 2>"$MUT/fmt.err") || { echo "[$name] does not parse: $(head -1 "$MUT/fmt.err")"; return; }
   "$BIN" -repo "$MUT" -out "$GEN" 2>"$MUT/gotrans.err"
+  # only the object engine's file is under test: the older generated files (decision layer, storage) stay at baseline,
+  # so that the report names the theorems of Props/TransMapSlabs*.lean and not the older ones about the same functions
+  cp "$VERIF/lean/AtreeModel/Gen/Trans.lean" "$VERIF/lean/AtreeModel/Gen/TransStorage.lean" "$GEN/"
   local out; out="$(cd "$LEAN" && lake build $MODS 2>&1)"
   local failed; failed="$(echo "$out" | grep -E '^error: AtreeProofs' | sed -E 's/^error: (AtreeProofs[^:]*):([0-9]+).*/\1:\2/' | sort -u | tr '\n' ' ')"
   local thms=""
@@ -74,7 +77,7 @@ run() { # name kind patchfile-or-empty [file sed-expression]
   if [ -z "$failed" ]; then
     if echo "$out" | grep -q '^error'; then res="BROKEN (generated file does not compile): $(echo "$out" | grep -m1 '^error' | cut -c1-160)"; else res="all theorems compile"; fi
   else res="BROKEN: $thms"; fi
-  echo "[$name] ($kind) $(grep 'not translated' "$MUT/gotrans.err" | head -2 | cut -c1-200 | tr '\n' ' ')=> $res"
+  echo "[$name] ($kind) $(grep 'not translated' "$MUT/gotrans.err" | grep -v -E ': (ArrayDataSlab|ArrayMetaDataSlab|PersistentSlabStorage|BasicSlabStorage|LedgerBaseStorage)\.' | head -2 | cut -c1-200 | tr '\n' ' ')=> $res"
 }
 
 run baseline none ""
